@@ -367,6 +367,11 @@ def gen_clock(rng, parents, mode):
     t = [1000 + 10 * i for i in range(n)]
     for _ in range(max(1, n // 4)):
         t[rng.randrange(n)] += rng.choice([-500, -50, 50, 500])
+    # a commit timestamp is an unsigned number in git's object format: several negative skews on one commit are shifted back into
+    # range by a constant, which keeps every relative order
+    m = min(t)
+    if m < 0:
+        t = [x - m for x in t]
     return t
 
 
